@@ -159,10 +159,10 @@ ROUND8 = {
     "C01": " Rounds 7-8: delayed products in mixed models; the propensity probe's buffer is prefilled with NaN (hook 53cd504).",
     "C02": " Round 8: every operator in every position with a volume-sensitive argument; one-shot (start / time) rules on the volume path.",
     "C03": " Round 7: the interface requested three times on a model with a valueless parameter.",
-    "C04": " Round 8: a short input pulse simulated with the hmax keyword against an independent DOP853 reference.",
+    "C04": " Round 8: a short input pulse simulated with the hmax keyword against an independent DOP853 reference; theorems rhsGlobal_conserves / rhsGlobal_untouched / rhsGlobal_rest, and every conserved combination of the specification's stoichiometry checked on the output rows (relative drift <= 1e-9).",
     "C05": " Round 8: master-equation comparison also through the safe interface with a volume.",
     "C06": " Round 7: a chain sharing one rate constant through three simulators.",
-    "C07": " Round 8: the same system built in one go and in steps (reaction added later, also after a run), non-idempotent rule chain.",
+    "C07": " Round 8: the same system built in one go and in steps (reaction added later, also after a run), non-idempotent rule chain; theorems ssa_run_complete / delay_run_complete (one row per requested time point for every network, seed and grid, by induction over the loop) and ssa_first_rows.",
     "C08": " Round 8: a pre-built interface used across runs on refined grids.",
     "C10": " Round 8: the entry point on grids whose spacing differs from the interface's dt.",
     "C13": " Round 7: shadowed globals with value 0.",
